@@ -57,6 +57,9 @@ type World struct {
 	AltSeed  uint64            `json:"alt_seed,omitempty"`
 	AltSites []string          `json:"alt_sites,omitempty"`
 	AltAll   bool              `json:"alt_all,omitempty"`
+	// AbsInputs: the input files are created under a stable absolute root (outside cwd) and every
+	// relative -i pattern is given to the command as an absolute path below that root
+	AbsInputs bool `json:"abs_inputs,omitempty"`
 
 	Cfg   *gen.Cfg `json:"cfg,omitempty"`   // the model the files were rendered from (when there is one)
 	Class string   `json:"class,omitempty"` // generator's note: valid / defect class / layout class
@@ -256,6 +259,16 @@ type wireResult struct {
 	Data string  `json:"data"`
 }
 
+// absRoot is the stable absolute directory of AbsInputs worlds: the same for every run of this
+// process and of the processes it spawns for isolated execution.
+func absRoot() string {
+	if r := os.Getenv("VERIFSIM_ABSROOT"); r != "" {
+		return r
+	}
+	initBase()
+	return filepath.Join(baseDir, "abs")
+}
+
 func execIsolated(w *World) *Result {
 	exe, err := os.Executable()
 	if err != nil {
@@ -263,6 +276,7 @@ func execIsolated(w *World) *Result {
 	}
 	in, _ := json.Marshal(w)
 	cmd := exec.Command(exe, "exec1")
+	cmd.Env = append(os.Environ(), "VERIFSIM_ABSROOT="+absRoot())
 	cmd.Stdin = bytes.NewReader(in)
 	var out, errb bytes.Buffer
 	cmd.Stdout, cmd.Stderr = &out, &errb
@@ -319,16 +333,29 @@ func Exec(t Target, w *World) *Result {
 		}
 	}
 	must(os.Chdir(cwd))
+	inRoot := ""
+	if w.AbsInputs {
+		inRoot = absRoot()
+		_ = os.RemoveAll(inRoot)
+		must(os.MkdirAll(inRoot, 0755))
+		defer os.RemoveAll(inRoot)
+	}
+	inPath := func(p string) string {
+		if inRoot != "" && !filepath.IsAbs(p) {
+			return filepath.Join(inRoot, p)
+		}
+		return p
+	}
 	for _, d := range w.Dirs {
-		must(os.MkdirAll(d, 0755))
+		must(os.MkdirAll(inPath(d), 0755))
 	}
 	for _, f := range w.Files {
-		must(os.MkdirAll(filepath.Dir(f.Path), 0755))
+		must(os.MkdirAll(filepath.Dir(inPath(f.Path)), 0755))
 		mode := os.FileMode(0644)
 		if f.Mode != 0 {
 			mode = os.FileMode(f.Mode)
 		}
-		must(os.WriteFile(f.Path, []byte(f.Content), mode))
+		must(os.WriteFile(inPath(f.Path), []byte(f.Content), mode))
 	}
 	if w.CwdGo {
 		must(os.WriteFile("zz_unrelated.go", []byte("package unrelated\n\nimport \"strings\"\n\nvar Cfg = struct{ Field string }{strings.ToUpper(\"x\")}\n"), 0644))
@@ -351,12 +378,16 @@ func Exec(t Target, w *World) *Result {
 	}
 	inputsBefore := map[string]string{}
 	for _, f := range w.Files {
-		inputsBefore[f.Path] = observe(f.Path).Sha
+		inputsBefore[f.Path] = observe(inPath(f.Path)).Sha
 	}
 
 	res := &Result{OutBefore: observe(w.Out)}
 	args := []string{"gontainer", "build"}
 	for _, p := range w.Patterns {
+		if inRoot != "" && !filepath.IsAbs(p) {
+			// keep the spelling of the pattern (./, //) after the root
+			p = inRoot + "/" + p
+		}
 		args = append(args, "-i", p)
 	}
 	args = append(args, "-o", w.Out)
@@ -370,7 +401,7 @@ func Exec(t Target, w *World) *Result {
 	ctl := &simrt.Ctl{
 		MapSeed: w.MapSeed, ListSeed: w.ListSeed, Clock: time.Unix(w.Clock, 0).UTC(), RandSeed: w.RandSeed,
 		Pid: w.Pid, Host: w.Host, Faults: append([]simrt.Fault{}, w.Faults...),
-		AltSeed: w.AltSeed, AltAll: w.AltAll, Root: top,
+		AltSeed: w.AltSeed, AltAll: w.AltAll, Root: top, Root2: inRoot,
 	}
 	if len(w.AltSites) > 0 {
 		ctl.AltSites = map[string]bool{}
@@ -439,7 +470,7 @@ func Exec(t Target, w *World) *Result {
 		if filepath.Clean(f.Path) == filepath.Clean(w.Out) {
 			continue
 		}
-		if observe(f.Path).Sha != inputsBefore[f.Path] {
+		if observe(inPath(f.Path)).Sha != inputsBefore[f.Path] {
 			res.InputsChanged = append(res.InputsChanged, f.Path)
 		}
 	}
